@@ -175,3 +175,186 @@ Proof.
       * destruct (cur_in_w th0) eqn:E0; [|reflexivity].
         exfalso. apply Hne. eapply (inv_uniq HI); eauto.
 Qed.
+
+Ltac norm :=
+  repeat first
+    [ rewrite do_ret_length | rewrite do_lp_length | rewrite abs_do_lp | rewrite ok_do_lp
+    | rewrite pend_do_ret_same by (rewrite ?do_lp_length; assumption)
+    | rewrite pend_do_lp_same by assumption
+    | rewrite pend_do_ret_other by assumption | rewrite pend_do_lp_other by assumption ].
+
+Lemma Inv_step c g t :
+  Inv c g -> g_ok g = true ->
+  Inv (step_cfg mutexq c t) (gstep mutexq qret_eqb fifo_spec mutex_lp c g t) /\
+  g_ok (gstep mutexq qret_eqb fifo_spec mutex_lp c g t) = true.
+Proof.
+  intros HI Hok.
+  destruct (nth_error (c_thr c) t) as [th|] eqn:Hn.
+  2:{ unfold step_cfg, step_thread, gstep. rewrite Hn. split; assumption. }
+  destruct (inv_thr HI _ _ Hn) as [Hdead Htok].
+  assert (Hltp : t < length (g_pend g)). { rewrite (inv_len HI). eapply nth_error_lt; eauto. }
+  pose proof (inv_abs HI) as Habs.
+  unfold step_cfg, step_thread, gstep. rewrite Hn. unfold view. rewrite Hdead.
+  destruct (t_cur th) as [[o l]|] eqn:Hcur.
+  2:{ destruct (t_prog th) as [|o rest] eqn:Hprog.
+      - split; assumption.
+      - assert (W0 : cur_in_w th = false) by (unfold cur_in_w; rewrite Hcur; reflexivity).
+        destruct o as [[|v]| | | | | | | |]; simpl;
+        (split;
+         [ eapply Inv_update with (c := c) (th := th);
+           [ exact HI | exact Hn
+           | norm; reflexivity
+           | intros; norm; reflexivity
+           | norm; simpl; try exact Habs
+           | unfold tok; simpl; norm; simpl; auto
+           | left; reflexivity
+           | unfold cur_in_w; simpl; try discriminate
+           | unfold cur_in_w; simpl; intros F; split; [reflexivity|left; exact F] ]
+         | norm; simpl; rewrite ?Hok, ?Htok; simpl; norm; simpl; rewrite ?Htok; reflexivity ]).
+  }
+  assert (Wfree : rw_writer (ms_lock (c_sh c)) = false -> cur_in_w th = false)
+    by (intros F; eapply (inv_free HI); eauto).
+  unfold cur_in_w in Wfree; rewrite Hcur in Wfree; simpl in Wfree.
+  destruct l as [o'|o'|o'|o' snap|w r]; simpl in Htok.
+  - (* MInv stored *)
+    destruct Htok as [-> Hp].
+    assert (W0 : cur_in_w th = false) by (unfold cur_in_w; rewrite Hcur; reflexivity).
+    destruct o' as [[|v]| | | | | | | |]; simpl;
+        (split;
+         [ eapply Inv_update with (c := c) (th := th);
+           [ exact HI | exact Hn
+           | norm; reflexivity
+           | intros; norm; reflexivity
+           | norm; simpl; try exact Habs
+           | unfold tok; simpl; norm; simpl; auto
+           | left; reflexivity
+           | unfold cur_in_w; simpl; try discriminate
+           | unfold cur_in_w; simpl; intros F; split; [reflexivity|left; exact F] ]
+         | norm; simpl; rewrite ?Hok, ?Hp; simpl; norm; simpl; rewrite ?Hp; reflexivity ]).
+  - (* MLock *)
+    destruct Htok as (-> & Hl & Hp).
+    assert (Hblk : Inv match @None (mcfg * list (event qop qret)) with Some (c', _) => c' | None => c end g /\ g_ok g = true)
+      by (split; assumption).
+    destruct (ms_lock (c_sh c)) as [wr rd] eqn:Hlk.
+    assert (Hacq : forall th' lk', wr = false -> rw_writer lk' = is_writer_op o' ->
+              th' = {| t_prog := rest_prog th false; t_ts := t_ts th; t_cur := Some (o', MRead o'); t_dead := false |} ->
+              Inv {| c_sh := MS lk' (ms_items (c_sh c)); c_thr := upd (c_thr c) t th' |} g /\ g_ok g = true).
+    { intros th' lk' Hwr Hlk' ->. split; [|exact Hok].
+      eapply Inv_update with (c := c) (th := th);
+        [ exact HI | exact Hn | reflexivity | reflexivity | exact Habs
+        | unfold tok; simpl; auto
+        | left; reflexivity
+        | intros _; right; rewrite Hlk; exact Hwr
+        | simpl; unfold cur_in_w; simpl; intros F; split; [congruence|left; rewrite Hlk; exact Hwr] ]. }
+    destruct o' as [[|v]| | | | | | | |]; simpl in Hl; try contradiction; simpl; rewrite Hlk; simpl;
+      destruct wr; simpl; try exact Hblk;
+      try (destruct (Nat.eqb rd 0); simpl; try exact Hblk);
+      (eapply Hacq; [reflexivity|reflexivity|reflexivity]).
+  - (* MRead *)
+    destruct Htok as (-> & Hl & Hp).
+    destruct o' as [[|v]| | | | | | | |]; simpl in Hl; try contradiction; simpl in *.
+    + (* Offer: writer, read the list *)
+      split; [|exact Hok].
+      eapply Inv_update with (c := c) (th := th);
+        [ exact HI | exact Hn | reflexivity | reflexivity | destruct c as [[lk it] thr]; exact Habs
+        | unfold tok; simpl; destruct c as [[lk it] thr]; simpl; repeat split; auto
+        | left; destruct c as [[lk it] thr]; reflexivity
+        | intros _; left; unfold cur_in_w; rewrite Hcur; reflexivity
+        | destruct c as [[lk it] thr]; simpl in *; intros F; specialize (Wfree F); discriminate ].
+    + (* Poll *)
+      split; [|exact Hok].
+      eapply Inv_update with (c := c) (th := th);
+        [ exact HI | exact Hn | reflexivity | reflexivity | destruct c as [[lk it] thr]; exact Habs
+        | unfold tok; simpl; destruct c as [[lk it] thr]; simpl; repeat split; auto
+        | left; destruct c as [[lk it] thr]; reflexivity
+        | intros _; left; unfold cur_in_w; rewrite Hcur; reflexivity
+        | destruct c as [[lk it] thr]; simpl in *; intros F; specialize (Wfree F); discriminate ].
+    + (* Peek: linearizes here *)
+      split; [| norm; rewrite Hok, Hp; reflexivity].
+      eapply Inv_update with (c := c) (th := th);
+        [ exact HI | exact Hn | norm; reflexivity | intros; norm; reflexivity
+        | norm; simpl; destruct c as [[lk it] thr]; exact Habs
+        | unfold tok; simpl; norm; simpl; rewrite Habs; repeat split; auto
+        | left; destruct c as [[lk it] thr]; reflexivity
+        | unfold cur_in_w; simpl; discriminate
+        | destruct c as [[lk it] thr]; simpl; unfold cur_in_w; simpl; intros F; split; [reflexivity|left; exact F] ].
+    + (* IsEmpty *)
+      split; [| norm; rewrite Hok, Hp; reflexivity].
+      eapply Inv_update with (c := c) (th := th);
+        [ exact HI | exact Hn | norm; reflexivity | intros; norm; reflexivity
+        | norm; simpl; destruct c as [[lk it] thr]; exact Habs
+        | unfold tok; simpl; norm; simpl; rewrite Habs; repeat split; auto
+        | left; destruct c as [[lk it] thr]; reflexivity
+        | unfold cur_in_w; simpl; discriminate
+        | destruct c as [[lk it] thr]; simpl; unfold cur_in_w; simpl; intros F; split; [reflexivity|left; exact F] ].
+    + (* Size *)
+      split; [| norm; rewrite Hok, Hp; reflexivity].
+      eapply Inv_update with (c := c) (th := th);
+        [ exact HI | exact Hn | norm; reflexivity | intros; norm; reflexivity
+        | norm; simpl; destruct c as [[lk it] thr]; exact Habs
+        | unfold tok; simpl; norm; simpl; rewrite Habs; repeat split; auto
+        | left; destruct c as [[lk it] thr]; reflexivity
+        | unfold cur_in_w; simpl; discriminate
+        | destruct c as [[lk it] thr]; simpl; unfold cur_in_w; simpl; intros F; split; [reflexivity|left; exact F] ].
+  - (* MWrite: the writers' linearization point *)
+    destruct Htok as (-> & Hl & Hw & -> & Hp).
+    assert (Win : cur_in_w th = true) by (unfold cur_in_w; rewrite Hcur; reflexivity).
+    destruct o' as [[|v]| | | | | | | |]; simpl in Hl, Hw; try contradiction; try discriminate; simpl in *.
+    + (* Offer (S v) *)
+      split; [| norm; rewrite Hok, Hp; reflexivity].
+      eapply Inv_update with (c := c) (th := th);
+        [ exact HI | exact Hn | norm; reflexivity | intros; norm; reflexivity
+        | norm; simpl; rewrite Habs; reflexivity
+        | unfold tok; simpl; norm; simpl; repeat split; auto
+        | right; exact Win
+        | intros _; left; exact Win
+        | simpl; intros F; specialize (Wfree F); discriminate ].
+    + (* Poll *)
+      destruct (ms_items (c_sh c)) as [|x r] eqn:Hit; simpl.
+      * split; [| norm; rewrite Hok, Hp; reflexivity].
+        eapply Inv_update with (c := c) (th := th);
+          [ exact HI | exact Hn | norm; reflexivity | intros; norm; reflexivity
+          | norm; simpl; rewrite Habs; reflexivity
+          | unfold tok; simpl; norm; simpl; rewrite Habs; repeat split; auto
+          | right; exact Win
+          | intros _; left; exact Win
+          | simpl; intros F; specialize (Wfree F); discriminate ].
+      * split; [| norm; rewrite Hok, Hp; reflexivity].
+        eapply Inv_update with (c := c) (th := th);
+          [ exact HI | exact Hn | norm; reflexivity | intros; norm; reflexivity
+          | norm; simpl; rewrite Habs; reflexivity
+          | unfold tok; simpl; norm; simpl; rewrite Habs; repeat split; auto
+          | right; exact Win
+          | intros _; left; exact Win
+          | simpl; intros F; specialize (Wfree F); discriminate ].
+  - (* MUnlock: the return *)
+    destruct w; simpl.
+    + split; [| norm; rewrite Hok, Htok, qret_eqb_refl; reflexivity].
+      eapply Inv_update with (c := c) (th := th);
+        [ exact HI | exact Hn | norm; reflexivity | intros; norm; reflexivity
+        | simpl; exact Habs
+        | unfold tok; simpl; norm; auto
+        | left; reflexivity
+        | unfold cur_in_w; simpl; discriminate
+        | simpl; intros _; split; [reflexivity|right; unfold cur_in_w; rewrite Hcur; reflexivity] ].
+    + split; [| norm; rewrite Hok, Htok, qret_eqb_refl; reflexivity].
+      eapply Inv_update with (c := c) (th := th);
+        [ exact HI | exact Hn | norm; reflexivity | intros; norm; reflexivity
+        | simpl; exact Habs
+        | unfold tok; simpl; norm; auto
+        | left; reflexivity
+        | unfold cur_in_w; simpl; discriminate
+        | simpl; intros F; split; [reflexivity|left; exact F] ].
+Qed.
+
+(** C19 (queue) / C01 (mutex queue): every history of the mutex queue is
+    linearizable as a FIFO queue with Size and IsEmpty, at the marked points *)
+Theorem mutex_queue_linearizable progs sched :
+  lin_ok mutexq qret_eqb fifo_spec mutex_lp minit tt [] progs sched = true.
+Proof.
+  unfold lin_ok.
+  apply (lin_by_invariant mutexq qret_eqb fifo_spec mutex_lp Inv).
+  - apply Inv_init.
+  - reflexivity.
+  - intros c g t HI Hok. apply Inv_step; assumption.
+Qed.
